@@ -211,6 +211,9 @@ class Gen:
         self.next_id = 0
         self.budget = budget      # soft bound on the number of constructs
         self.feats = set(feats)   # extra features: "opts", "cs", "ev", "badlevels", "wildbreak"
+        self.in_bang = 0          # generating inside a `!` operand
+        self.has_opts = False     # the construct being generated toggles options
+        self.func_opts = {}       # function index -> toggles options (transitively)
 
     def leaf(self, codes=None):
         r = self.rng
@@ -264,7 +267,7 @@ class Gen:
         if k < 0.86:
             return ("Su", self.lst(depth - 1, 0, infunc, ncalls))
         if k < 0.93 and ncalls:
-            return ("K", r.choice(ncalls))
+            return self.call(ncalls)
         return self.simple(loops, infunc, ncalls)
 
     def cmd_of(self, kinds, depth, loops, infunc, ncalls):
@@ -279,7 +282,11 @@ class Gen:
 
     def simple(self, loops, infunc, ncalls):
         r = self.rng
-        if "opts" in self.feats and r.random() < 0.12:
+        # bash decides the errexit exemption of `! cmd` when cmd starts: `set -e` switched on *inside* a
+        # negated command leaves its later failures non-exempt (a bash quirk that contradicts the property's
+        # own wording), so option toggles are never generated under `!`
+        if "opts" in self.feats and self.in_bang == 0 and r.random() < 0.12:
+            self.has_opts = True
             return ("O", "e", r.random() < 0.7)
         k = r.random()
         if k < 0.5:
@@ -303,15 +310,23 @@ class Gen:
         if k < 0.90:
             return ("X", r.choice([None, 0, 1, 5, 255, 300]))
         if ncalls:
-            return ("K", r.choice(ncalls))
+            return self.call(ncalls)
         return self.leaf()
+
+    def call(self, ncalls):
+        f = self.rng.choice(ncalls)
+        if self.func_opts.get(f):
+            self.has_opts = True
+        return ("K", f)
 
     def pipe(self, depth, loops, infunc, ncalls):
         r = self.rng
-        c = self.cmd(depth, loops, infunc, ncalls)
         if r.random() < 0.15:
+            self.in_bang += 1
+            c = self.cmd(depth, loops, infunc, [f for f in ncalls if not self.func_opts.get(f)])
+            self.in_bang -= 1
             return ("N", c)
-        return c
+        return self.cmd(depth, loops, infunc, ncalls)
 
     def andor(self, depth, loops, infunc, ncalls):
         r = self.rng
@@ -335,7 +350,9 @@ class Gen:
             nfuncs = r.choice([0, 0, 1, 2, 3])
         funcs = [None] * nfuncs
         for i in reversed(range(nfuncs)):
+            self.has_opts = False
             funcs[i] = self.lst(max(1, depth - 1), 0, True, list(range(i + 1, nfuncs)))
+            self.func_opts[i] = self.has_opts
         main = self.lst(depth, 0, False, list(range(nfuncs)))
         pre = list(prefix or [])
         if main[0] != "S":
